@@ -20,7 +20,7 @@ from ..prov import FuncFacts
 from ..resolve import Ctx, calls_in
 from . import c15
 from .c01 import _Relabel
-from .common import inline_locals, class_closure, holds
+from .common import call_kwargs, inline_locals, class_closure, holds
 
 
 def _closure_of(pm, fn: FuncInfo) -> list[FuncInfo]:
@@ -135,6 +135,7 @@ def check(chk):
     _type_guards(chk)
     _dims_guard(chk)
     _roles(chk)
+    _mode_labels(chk)
     c15._exhaustive(_Relabel(chk, "EXH.solver", "GUARD.role.solver"))
     chk.floor("GUARD.type", 30)
     chk.floor("GUARD.role", 25)
@@ -333,6 +334,61 @@ def _dims_guard(chk):
 
 
 # ----------------------------------------------------------------------------
+def _mode_labels(chk):
+    """GUARD.modes.select - score arrays naming modes the model does not have are refused.  In every
+    _inverse_transform_algorithm the stored array that is contracted with a score parameter P is selected by P's OWN
+    mode labels (``.sel(mode=P.mode)`` raises KeyError for a label the model does not have; labels taken from another
+    argument let xr.dot inner-join the unknown label away) - or a guard reading P's modes raises."""
+    pm = chk.pm
+    seen = set()
+    n = 0
+    for cls in pm.concrete_models():
+        fn = cls.resolve("_inverse_transform_algorithm")
+        if fn is None or fn.qualname in seen:
+            continue
+        seen.add(fn.qualname)
+        params = [q for q in fn.params if q not in ("self", "cls")]
+        ff = FuncFacts.of(fn)
+        contractions = [(c, [a for a in c.args if not isinstance(a, ast.Starred)]) for c in calls_in(fn) if (dotted(c.func) or "").split(".")[-1] in ("dot", "matmul", "einsum")]
+        contractions += [(b, [b.left, b.right]) for b in walk_no_nested(fn.node) if isinstance(b, ast.BinOp) and isinstance(b.op, ast.MatMult)]
+        for node, operands in contractions:
+            info = []
+            for a in operands:
+                ps = ff.paths(a, spine_only=True, follow=True)
+                info.append((a, {q.atom.name for q in ps if q.atom.kind == "param" and q.atom.name in params},
+                             [q for q in ps if q.atom.kind == "selfattr" and q.atom.name == "self.data"]))
+            given = set().union(*[i[1] for i in info]) if info else set()
+            stored = [q for i in info for q in i[2]]
+            if len(given) != 1 or not stored:
+                continue
+            P = next(iter(given))
+            n += 1
+
+            def own_labels(q):
+                for o in q.ops:
+                    if o.kind == "method" and o.name == "sel":
+                        kw = call_kwargs(o.node)
+                        lab = kw.get("mode")
+                        if lab is None and o.node.args and isinstance(o.node.args[0], ast.Dict):
+                            for k, v in zip(o.node.args[0].keys, o.node.args[0].values):
+                                if const_str(k) == "mode":
+                                    lab = v
+                        if lab is None:
+                            continue
+                        lps = ff.eval_in(o.frame, lab, spine_only=True)
+                        if lps and all(x.atom.kind == "param" and x.atom.name == P and (x.has_op("attr", "mode") or any(y.kind == "subscript" and "mode" in y.name for y in x.ops)) for x in lps):
+                            return True
+                return False
+
+            guard = any(isinstance(g, ast.If) and any(isinstance(r, ast.Raise) for r in ast.walk(g)) and "mode" in norm(g.test)
+                        and any(isinstance(x, ast.Name) and x.id == P for x in ast.walk(g.test)) for g in walk_no_nested(fn.node))
+            ok = all(own_labels(q) for q in stored) or guard
+            chk.check(ok, "GUARD.modes.select", fn, node, construct=f"{fn.qualname.split('.')[-2]}: stored array contracted with {P} is selected by {P}'s own mode labels",
+                      why=f"the array contracted with the score argument {P} is not selected by {P}.mode: a score array naming a mode the model does not have is no longer "
+                          f"refused (the contraction silently drops the unknown label)")
+    chk.require(n >= 3, f"GUARD.modes.select: only {n} score contractions found in the _inverse_transform_algorithm implementations")
+
+
 def _src(ff, e):
     params, attrs, funcs = set(), set(), set()
     for p in ff.paths(e, spine_only=False):
